@@ -1195,6 +1195,11 @@ impl Vm {
 
         let prev_stack_size = self.active_fiber().current_frame().unwrap().slot_base;
         self.active_fiber_mut().frames.pop();
+        // Handlers registered by the frame that has just been removed must not outlive it.
+        let frame_count = self.active_fiber().frames.len();
+        self.active_fiber_mut()
+            .exc_handlers
+            .retain(|handler| handler.frame_count <= frame_count);
         if self.active_fiber().has_finished() {
             if self.active_fiber().caller.is_some() {
                 self.unload_fiber(None)?;
